@@ -17,7 +17,7 @@ import warnings
 from . import common as cm
 from . import c10_gen as G
 
-REQ = ["Text.FilePos", "Text.FileText", "Text.Split", "Text.Wire"]
+REQ = ["Text.FilePos", "Text.FileText", "Text.Split", "Text.StrLits", "Text.Wire"]
 ANCHORS = ["pyflyby._file:FilePos.__add__", "pyflyby._file:FileText.__new__", "pyflyby._file:FileText.endpos",
            "pyflyby._file:FileText._lineno_to_index", "pyflyby._file:FileText._colno_to_index",
            "pyflyby._file:FileText.__getitem__", "pyflyby._file:FileText.concatenate",
@@ -164,6 +164,87 @@ def model_expr(src, sp, nodes):
     return "run_statements %s %s %s %s %s" % (cm.cstr(src), cm.cnat(sp[0]), cm.cnat(sp[1]), c_nodes(nodes), c_ends(nodes))
 
 
+# ---- abstract AST for the string_literals() model (Text/StrLits.v) ----
+
+AKIND = {"Dict": "AKDict", "FunctionDef": "AKFuncDef", "AsyncFunctionDef": "AKFuncDef", "arguments": "AKArguments",
+         "IfExp": "AKIfExp", "Call": "AKCall", "keyword": "AKKeyword", "ClassDef": "AKClassDef", "JoinedStr": "AKJoinedStr",
+         "FormattedValue": "AKFormattedValue", "MatchAs": "AKMatchAs", "MatchMapping": "AKMatchMapping"}
+AFIELDS = {"Dict": ["keys", "values"], "FunctionDef": ["args", "body", "decorator_list", "returns", "type_params"],
+           "AsyncFunctionDef": ["args", "body", "decorator_list", "returns", "type_params"],
+           "arguments": ["posonlyargs", "args", "vararg", "kwonlyargs", "kw_defaults", "kwarg", "defaults"],
+           "IfExp": ["test", "body", "orelse"], "Call": ["func", "args", "keywords"], "keyword": ["value"],
+           "ClassDef": ["bases", "keywords", "body", "decorator_list", "type_params"], "JoinedStr": ["values"],
+           "FormattedValue": ["value", "format_spec"], "MatchAs": ["pattern"], "MatchMapping": ["keys", "patterns"]}
+
+
+def abstract_ast(src, sp, max_nodes=450):
+    """(Gallina term of type anode, fuel) for the module, or None if too large.  Fields are listed in the
+    order of CPython's _fields; a node without position gets the start of its first positioned
+    descendant and is dropped if it has none (Load, Add, ...)."""
+    tree = ast.parse(src)
+    lines = src.split("\n")
+    l0, c0 = sp
+    at_starts = None
+    count = [0]
+
+    def place(lineno, ccol):
+        return (l0 + lineno - 1, (c0 if lineno == 1 else 1) + ccol)
+
+    def conv(n):
+        nonlocal at_starts
+        count[0] += 1
+        name = type(n).__name__
+        fields = []
+        for f in AFIELDS.get(name, [f for f in n._fields]):
+            v = getattr(n, f, None)
+            if isinstance(v, ast.AST):
+                fields.append([conv(v)])
+            elif isinstance(v, list):
+                items = [conv(x) if isinstance(x, ast.AST) else None for x in v if isinstance(x, ast.AST) or x is None]
+                fields.append(items)
+            elif name in AFIELDS:
+                fields.append([])
+        # drop position-less leaves from the default layout (they have no effect on what is reported)
+        kids = [x for fl in fields for x in fl if x is not None]
+        if hasattr(n, "lineno"):
+            lineno, ccol = n.lineno, G.char_col(lines[n.lineno - 1], n.col_offset)
+            if getattr(n, "decorator_list", None):
+                d = n.decorator_list[0]
+                dpos = (d.lineno, G.char_col(lines[d.lineno - 1], d.col_offset))
+                if at_starts is None:
+                    at_starts = G.logical_line_starts(src)
+                cands = [p for p, t in at_starts if t == "@" and p <= dpos]
+                if cands:
+                    lineno, ccol = cands[-1]
+            start = place(lineno, ccol)
+            raw = (n.lineno, n.col_offset)
+        else:
+            starts = [k["start"] for k in kids if k is not None]
+            if not starts and name != "Module":
+                return None
+            start = min(starts) if starts else tuple(sp)
+            raw = (0, 0)
+        if name not in AFIELDS:
+            fields = [[x for x in fl if x is not None] for fl in fields]
+        is_str = isinstance(n, ast.Constant) and isinstance(n.value, (str, bytes))
+        return {"kind": AKIND.get(name, "AKDefault"), "raw": raw, "start": start, "is_str": is_str, "fields": fields,
+                "depth": 1 + max([k["depth"] for k in kids if k is not None] or [0])}
+
+    root = conv(tree)
+    if root is None or count[0] > max_nodes:
+        return None
+
+    def term(a):
+        if a is None:
+            return "None"
+        fs = cm.clist([cm.clist(["None" if x is None else "(Some %s)" % term(x) for x in fl]) for fl in a["fields"]])
+        return "(ANode %s (%s, %s) (mkPos %s %s) %s %s)" % (a["kind"], cm.cnat(a["raw"][0]), cm.cnat(a["raw"][1]),
+                                                           cm.cnat(a["start"][0]), cm.cnat(a["start"][1]), cm.cbool(a["is_str"]), fs)
+    if root["start"][1] >= 4000 or any(len(l) >= 3900 for l in lines):
+        return None
+    return term(root), root["depth"] + 1
+
+
 def modelable(src, sp, nodes):
     if len(src) > MAX_MODEL_CHARS or src.count("\n") > MAX_MODEL_LINES:
         return False
@@ -297,7 +378,15 @@ def prepare(cases):
         except (SyntaxError, ValueError):
             prep.append(None)
             continue
-        prep.append({"src": src, "tree": tree, "nodes": nodes,
+        lits_expr = None
+        if len(src) <= 1500 and "\r" not in src:
+            try:
+                a = abstract_ast(src, tuple(c["sp"]))
+            except (AssertionError, RecursionError):
+                a = None
+            if a is not None:
+                lits_expr = "run_strlits %s %s" % (cm.cnat(a[1]), a[0])
+        prep.append({"src": src, "tree": tree, "nodes": nodes, "lits_expr": lits_expr,
                      "expr": model_expr(src, c["sp"], nodes) if modelable(src, c["sp"], nodes) else None})
     return prep
 
@@ -388,6 +477,12 @@ def run(ctx):
             exprs.append(p["expr"])
     model = cm.coq_eval_json(REQ, exprs, shard=40)
     mv = dict(zip(where, model))
+    lexprs, lwhere = [], []
+    for i, p in enumerate(prep):
+        if p is not None and p.get("lits_expr"):
+            lwhere.append(i)
+            lexprs.append(p["lits_expr"])
+    lmodel = dict(zip(lwhere, cm.coq_eval_json(REQ, lexprs, shard=40)))
     for i, (c, p, im) in enumerate(zip(cases, prep, impl)):
         if p is None:
             ctx.bump("skipped_unparsable")
@@ -396,7 +491,15 @@ def run(ctx):
             ctx.violation("harness", c if c["kind"] != "corpus" else {"path": c["path"]}, im)
             continue
         compare_one(ctx, c, p, im, mv.get(i))
-    ctx.notes["model_evaluations_in_kernel"] = len(exprs)
+        ml = lmodel.get(i)
+        if ml is not None and "lits" in im:
+            ctx.bump("strlits_model_evaluated")
+            shortc = c if c["kind"] != "corpus" else {"kind": "corpus", "path": c["path"], "sp": c["sp"]}
+            if not ml["ordered"]:
+                ctx.disagreement("string_literals: `ordered` is false on CPython's positions (children not in source order)", shortc, None, ml)
+            if ml["lits"] != [pos for _, pos in im["lits"]]:
+                ctx.disagreement("PythonBlock.string_literals() positions", shortc, [pos for _, pos in im["lits"]], ml["lits"])
+    ctx.notes["model_evaluations_in_kernel"] = len(exprs) + len(lexprs)
     ctx.notes["oracle_evaluations"] = sum(1 for p in prep if p is not None)
 
 
